@@ -608,3 +608,146 @@ Proof.
   - rewrite (lazy_eq_eager d a rv o Hok Ho). discriminate.
   - unfold graph_search. rewrite Ho. discriminate.
 Qed.
+
+(* ====================================================================== *)
+(* 7. the specification returns the origin first, no duplicates, exactly    *)
+(*    the reachable elements, with walk lengths as distances                *)
+(* ====================================================================== *)
+
+Section SpecProps.
+  Variable g : graph.
+  Hypothesis Hok : adj_ok g.
+  Variable a : algo.
+  Variable rv : bool.
+  Variable o : Z.
+  Hypothesis Ho : elem_id g o = true.
+
+  Lemma walk_reach : forall x k, walk g rv o x k -> reach g rv o x.
+  Proof. intros x k H. induction H; [constructor | econstructor; eassumption]. Qed.
+
+  Lemma reach_walk : forall x, reach g rv o x -> exists k, walk g rv o x k.
+  Proof.
+    intros x H. induction H as [|x y _ [k IH] Hy]; [exists 0; constructor|].
+    exists (k + 1). econstructor; eassumption.
+  Qed.
+
+  Lemma walk_nonneg : forall x k, walk g rv o x k -> 0 <= k.
+  Proof. intros x k H. induction H; lia. Qed.
+
+  Lemma reach_elem : forall x, reach g rv o x -> elem_id g x = true.
+  Proof. intros x H. induction H; [exact Ho | eapply succs_elem; eassumption]. Qed.
+
+  (* (a) the origin is the oldest entry of the result *)
+  Definition inv_first (E acc : list (Z * Z)) : Prop :=
+    (acc = [] /\ E = [(o, 0)]) \/ exists acc0, acc = acc0 ++ [(o, 0)].
+
+  Lemma inv_first_step : forall E acc E' acc', inv_first E acc -> spec_step g a rv E acc = Some (E', acc') -> inv_first E' acc'.
+  Proof.
+    intros E acc E' acc' H Hs. destruct H as [[-> ->]|[acc0 ->]].
+    - cbn in Hs. injection Hs as <- <-. right. exists []. reflexivity.
+    - destruct E as [|[x k] rest]; cbn [spec_step] in Hs; [discriminate|].
+      destruct (inb x (map fst (acc0 ++ [(o, 0)]))); injection Hs as <- <-; right.
+      + exists acc0. reflexivity.
+      + exists ((x, k) :: acc0). reflexivity.
+  Qed.
+
+  (* (b) no duplicates *)
+  Definition inv_nodup (E acc : list (Z * Z)) : Prop := NoDup (map fst acc).
+
+  Lemma inv_nodup_step : forall E acc E' acc', inv_nodup E acc -> spec_step g a rv E acc = Some (E', acc') -> inv_nodup E' acc'.
+  Proof.
+    intros E acc E' acc' H Hs. unfold inv_nodup in *. destruct E as [|[x k] rest]; cbn [spec_step] in Hs; [discriminate|].
+    destruct (inb x (map fst acc)) eqn:Ev; injection Hs as <- <-; [exact H|].
+    cbn [map fst]. constructor; [apply inb_false; exact Ev | exact H].
+  Qed.
+
+  (* (c) every pending or visited item is reached by a walk of the recorded length *)
+  Definition inv_walk (E acc : list (Z * Z)) : Prop :=
+    forall x k, In (x, k) E \/ In (x, k) acc -> walk g rv o x k.
+
+  Lemma inv_walk_step : forall E acc E' acc', inv_walk E acc -> spec_step g a rv E acc = Some (E', acc') -> inv_walk E' acc'.
+  Proof.
+    intros E acc E' acc' H Hs. destruct E as [|[x k] rest]; cbn [spec_step] in Hs; [discriminate|].
+    assert (Hx : walk g rv o x k) by (apply H; left; left; reflexivity).
+    destruct (inb x (map fst acc)); injection Hs as <- <-; intros y j Hy.
+    - apply H. destruct Hy as [Hy|Hy]; [left; right; exact Hy | right; exact Hy].
+    - assert (Hnew : In (y, j) (map (fun z => (z, k + 1)) (succs g rv x)) -> walk g rv o y j).
+      { intros Hin. apply in_map_iff in Hin. destruct Hin as (z & Hz & Hin). injection Hz as <- <-.
+        econstructor; eassumption. }
+      destruct Hy as [Hy|[Hy|Hy]].
+      + destruct a; apply in_app_or in Hy; destruct Hy as [Hy|Hy]; auto; apply H; left; right; exact Hy.
+      + injection Hy as <- <-. exact Hx.
+      + apply H. right. exact Hy.
+  Qed.
+
+  (* (d) the visited set is closed under successors up to the pending items *)
+  Definition inv_closed (E acc : list (Z * Z)) : Prop :=
+    (forall x y, In x (map fst acc) -> In y (succs g rv x) -> In y (map fst acc) \/ In y (map fst E)) /\
+    (In o (map fst acc) \/ In o (map fst E)).
+
+  Lemma inv_closed_step : forall E acc E' acc', inv_closed E acc -> spec_step g a rv E acc = Some (E', acc') -> inv_closed E' acc'.
+  Proof.
+    intros E acc E' acc' [Hc Hor] Hs. destruct E as [|[x k] rest]; cbn [spec_step] in Hs; [discriminate|].
+    destruct (inb x (map fst acc)) eqn:Ev; injection Hs as <- <-.
+    - apply inb_In in Ev. split.
+      + intros x' y Hx' Hy. destruct (Hc x' y Hx' Hy) as [H|[H|H]]; [left; exact H | subst; left; exact Ev | right; exact H].
+      + destruct Hor as [H|[H|H]]; [left; exact H | cbn [fst] in H; subst; left; exact Ev | right; exact H].
+    - assert (HE' : forall y, In y (map fst rest) \/ In y (succs g rv x) ->
+                  In y (map fst (match a with
+                                 | BFS => rest ++ map (fun z => (z, k + 1)) (succs g rv x)
+                                 | DFS => map (fun z => (z, k + 1)) (succs g rv x) ++ rest end))).
+      { intros y Hy.
+        assert (Hn : In y (succs g rv x) -> In y (map fst (map (fun z => (z, k + 1)) (succs g rv x)))).
+        { intros Hin. rewrite map_map. cbn [fst]. rewrite map_id. exact Hin. }
+        destruct a; rewrite map_app; apply in_or_app; destruct Hy as [Hy|Hy]; auto. }
+      split.
+      + intros x' y Hx' Hy. cbn [map fst] in Hx'. destruct Hx' as [Hx'|Hx'].
+        * subst x'. right. apply HE'. right. exact Hy.
+        * destruct (Hc x' y Hx' Hy) as [H|[H|H]].
+          -- left. right. exact H.
+          -- cbn [fst] in H. subst. left. left. reflexivity.
+          -- right. apply HE'. left. exact H.
+      + destruct Hor as [H|[H|H]].
+        * left. right. exact H.
+        * cbn [fst] in H. subst. left. left. reflexivity.
+        * right. apply HE'. left. exact H.
+  Qed.
+
+  Theorem search_spec_reachable :
+    let r := search_spec g a rv o in
+    (exists tl, r = (o, 0) :: tl) /\
+    NoDup (map fst r) /\
+    (forall x, In x (map fst r) <-> reach g rv o x) /\
+    (forall x k, In (x, k) r -> walk g rv o x k).
+  Proof.
+    intros r. pose proof (search_spec_run g Hok a rv o Ho) as Hrun. fold r in Hrun.
+    (* the four invariants at the end of the run *)
+    assert (H1 : inv_first [] (rev r)).
+    { apply (spec_run_inv g a rv inv_first inv_first_step _ _ _ r) in Hrun; [exact Hrun|].
+      left. split; reflexivity. }
+    assert (H2 : inv_nodup [] (rev r)).
+    { apply (spec_run_inv g a rv inv_nodup inv_nodup_step _ _ _ r) in Hrun; [exact Hrun|]. constructor. }
+    assert (H3 : inv_walk [] (rev r)).
+    { apply (spec_run_inv g a rv inv_walk inv_walk_step _ _ _ r) in Hrun; [exact Hrun|].
+      intros x k [[H|[]]|[]]. injection H as <- <-. constructor. }
+    assert (H4 : inv_closed [] (rev r)).
+    { apply (spec_run_inv g a rv inv_closed inv_closed_step _ _ _ r) in Hrun; [exact Hrun|].
+      split; [intros x y []|]. right. left. reflexivity. }
+    assert (Hw : forall x k, In (x, k) r -> walk g rv o x k).
+    { intros x k Hin. apply H3. right. apply in_rev in Hin. exact Hin. }
+    repeat split.
+    - destruct H1 as [[_ H]|[acc0 H]]; [discriminate|].
+      exists (rev acc0). rewrite <- (rev_involutive r), H, rev_app_distr. reflexivity.
+    - unfold inv_nodup in H2. rewrite map_rev in H2. apply NoDup_rev in H2.
+      rewrite rev_involutive in H2. exact H2.
+    - intros Hin. apply in_map_iff in Hin. destruct Hin as ([y k] & Hy & Hin). cbn [fst] in Hy. subst y.
+      eapply walk_reach. apply Hw. exact Hin.
+    - intros Hreach. destruct H4 as [Hc Hor].
+      assert (Hin : forall y, reach g rv o y -> In y (map fst (rev r))).
+      { intros y Hy. induction Hy as [|y z _ IH Hz].
+        - destruct Hor as [H|[]]. exact H.
+        - destruct (Hc y z IH Hz) as [H|[]]. exact H. }
+      specialize (Hin x Hreach). rewrite map_rev in Hin. apply in_rev in Hin. exact Hin.
+    - exact Hw.
+  Qed.
+End SpecProps.
